@@ -271,8 +271,8 @@ func copyVal(v Value) Value {
 	return v
 }
 
-type unsupportedErr struct{ msg string }
+type unsupportedErr struct{ msg, stack string }
 
-func unsupported(msg string) unsupportedErr { return unsupportedErr{msg} }
+func unsupported(msg string) unsupportedErr { return unsupportedErr{msg: msg} }
 
 func (u unsupportedErr) Error() string { return "unsupported: " + u.msg }
